@@ -5,3 +5,4 @@ import MCHap.Properties.C04
 import MCHap.Properties.C05
 import MCHap.Properties.C11
 import MCHap.Properties.C15
+import MCHap.Properties.C09
